@@ -470,7 +470,12 @@ func (fg *FunctionGenerator) GenerateCustom(ast parser2.AST, gc funcGen.Generato
 						}
 					}
 				} else {
-					return nil, fmt.Errorf("not a bool: %s", TypeName(aVal))
+					// no bool: same result as the constant folding of the operation
+					bVal, err := bFunc(st, cs)
+					if err != nil {
+						return nil, err
+					}
+					return g.GetOpImpl("&").Calc(st, aVal, bVal)
 				}
 			}, aPure && bPure, nil
 		case "|":
@@ -502,7 +507,12 @@ func (fg *FunctionGenerator) GenerateCustom(ast parser2.AST, gc funcGen.Generato
 						}
 					}
 				} else {
-					return nil, fmt.Errorf("not a bool: %s", TypeName(aVal))
+					// no bool: same result as the constant folding of the operation
+					bVal, err := bFunc(st, cs)
+					if err != nil {
+						return nil, err
+					}
+					return g.GetOpImpl("|").Calc(st, aVal, bVal)
 				}
 			}, aPure && bPure, nil
 		}
@@ -667,8 +677,10 @@ func New() *FunctionGenerator {
 			}
 			return false, false
 		}).
-		AddOpImpl("|", true, Or(f)).
-		AddOpImpl("&", true, And(f))
+		// Not commutative for the optimizer: both are evaluated with short circuit,
+		// regrouping constants would skip the evaluation of a failing operand.
+		AddOpImpl("|", false, Or(f)).
+		AddOpImpl("&", false, And(f))
 
 	f.FunctionGenerator = fg
 	equal := Equal(f)
